@@ -21,7 +21,7 @@ ASSUMPTIONS = ['tone data carry a fixed 1e-3 perturbation so that AR/subspace es
 EPS = 1e-3
 ORDERS = {
     'Periodogram': [dict(window='hann'), dict(window='rectangular')],
-    'pcorrelogram': [dict(lag=6), dict(lag=4)],
+    'pcorrelogram': [dict(lag=6), dict(lag=4), dict(lag=11, structural=True), dict(lag=7, structural=True)],
     'pburg': [dict(order=4), dict(order=2), dict(order=6), dict(order=1), dict(order=3), dict(order=4, criteria='AIC'), dict(order=6, criteria='MDL')],
     'pyule': [dict(order=4), dict(order=2), dict(order=6), dict(order=1), dict(order=3)],
     'pcovar': [dict(order=4), dict(order=2), dict(order=6), dict(order=1), dict(order=3)],
@@ -88,6 +88,8 @@ def shards(tier):
 
 def in_domain(cls, N, NFFT, o, cplx):
     nf = C.resolve_nfft(NFFT, N)
+    if cls == 'pcorrelogram' and o.get('structural'):
+        return None if o['lag'] < N else 'lag>=N'       # lag window longer than the grid: values are not judged, only real / finite / length / axis
     if nf < C.min_nfft(cls, N, o):
         return 'nfft_not_admissible'
     if cls in ('Periodogram', 'MultiTapering') and nf < N:
@@ -131,7 +133,7 @@ def run_shard(desc, R, tier):
             bins = [k for k in range(nf // 2 + 1) if 4.0 / N <= k / float(nf) <= 0.5 - 4.0 / N]
             if not bins:
                 bins = [None]          # structural clauses only (constant + noise data)
-        if cfg['single']:
+        if cfg['single'] or o.get('structural'):
             bins = [None]              # single-precision records: structural clauses on a noise-like record (a 60 dB tone is not resolvable by a float32 recursion)
         for k in bins:
             eval_point(dict(cls=cls, N=N, NFFT=NFFT, fs=cfg['fs'], o=o, cplx=cplx, k=k, single=cfg['single']), R)
